@@ -224,7 +224,7 @@ def oracle_case(case, observe=None):
     lhs, rhs = inner(ey, efx, w), inner(eby, ex, w)
     if not abs(lhs - rhs) <= TOL * max(1.0, abs(lhs), abs(rhs)):
         bad.append(('adjoint ' + tag, '<y, forward x> = %r but <backward y, x> = %r' % (lhs, rhs)))
-    obs = {'grid': grid, 'prop': prop, 'reg': reg, 'near_boundary': near_boundary}
+    obs = {'grid': grid, 'prop': prop, 'reg': reg, 'near_boundary': near_boundary, 'ex': ex, 'efx': efx}
     if reg['stated'] and not near_boundary:
         evan = kind == 'angular' and reg['minrad'] < 0
         pre = 'angular-evanescent-corner ' if evan else ''
@@ -403,6 +403,26 @@ def compare_model(ctx, case, obs, pix, answers):
         # (a discrete chirp can be its own transform, e.g. lambda |z| = M delta^2: recorded, not decided, on large grids)
         ctx.count('ir-branch-coincides-with-sampled-tf(large grid, not recomputed)')
     ctx.count('branch:' + kv['branch'])
+    # end to end: pad -> fftn -> multiply -> ifftn -> crop, recomputed with the model's sizes and cut-out
+    nx, ny = case['dims']
+    ex = obs['ex']
+    ts = ex.shape[:-1]
+    arr = ex.reshape(ts + (ny, nx))
+    if kv['cut'] == 'none':
+        padded = arr
+    else:
+        y0, y1, x0, x1 = (int(v) for v in kv['cut'].split(':'))
+        padded = np.zeros(ts + (model_M[1], model_M[0]), dtype=complex)
+        padded[..., y0:y1, x0:x1] = arr
+    out = np.fft.ifft2(np.fft.fft2(padded, axes=(-2, -1)) * np.asarray(tf), axes=(-2, -1))
+    if kv['cut'] != 'none':
+        out = out[..., y0:y1, x0:x1]
+    out = out.reshape(ts + (nx * ny,))
+    ctx.traces_validated += 1
+    dev = float(np.abs(out - obs['efx']).max())
+    if not dev <= TOL * max(1.0, float(np.abs(out).max())):
+        ctx.disagree('C04 filter pipeline', {'case': case, 'max_dev': dev,
+                     'detail': 'forward() differs from crop(ifftn(D * fftn(pad(x)))) with the model cut-out'})
 
 
 # ---------------------------------------------------------------------------------------------
